@@ -84,13 +84,13 @@ theorem expandWith_congr {pnf pnf' : St → Ref → Res} (h : Extends pnf pnf') 
       simp only at hne ⊢
       exact ih s1 hne
 
-theorem parseSourceWith_congr {pnfAt pnfAt' : List Bytes → St → Ref → Res}
+theorem parseSourceWith_congr (tbl : SiteTable) {pnfAt pnfAt' : List Bytes → St → Ref → Res}
     (h : ∀ paths, Extends (pnfAt paths) (pnfAt' paths)) (paths : List Bytes) (st : St)
     (name : Bytes) (refs : List Ref)
-    (hne : (parseSourceWith pnfAt paths st name refs).2 ≠ .error .outOfFuel) :
-    parseSourceWith pnfAt' paths st name refs = parseSourceWith pnfAt paths st name refs := by
+    (hne : (parseSourceWith tbl pnfAt paths st name refs).2 ≠ .error .outOfFuel) :
+    parseSourceWith tbl pnfAt' paths st name refs = parseSourceWith tbl pnfAt paths st name refs := by
   unfold parseSourceWith at hne ⊢
-  cases hc : checkRefs refs with
+  cases hc : checkRefs tbl refs with
   | error e => rfl
   | ok u =>
     cases u
@@ -98,8 +98,8 @@ theorem parseSourceWith_congr {pnfAt pnfAt' : List Bytes → St → Ref → Res}
     simp only at hne ⊢
     exact expandWith_congr (h _) _ refs st hne
 
-theorem parseNodeFile_mono (fm : FileMap) : ∀ (fuel : Nat) (paths : List Bytes),
-    Extends (parseNodeFile fm fuel paths) (parseNodeFile fm (fuel + 1) paths) := by
+theorem parseNodeFile_mono (tbl : SiteTable) (fm : FileMap) : ∀ (fuel : Nat) (paths : List Bytes),
+    Extends (parseNodeFile tbl fm fuel paths) (parseNodeFile tbl fm (fuel + 1) paths) := by
   intro fuel
   induction fuel with
   | zero =>
@@ -107,7 +107,7 @@ theorem parseNodeFile_mono (fm : FileMap) : ∀ (fuel : Nat) (paths : List Bytes
     exact absurd rfl hne
   | succ n ih =>
     intro paths st ref hne
-    have hstep : ∀ (m : Nat), parseNodeFile fm (m + 1) paths st ref =
+    have hstep : ∀ (m : Nat), parseNodeFile tbl fm (m + 1) paths st ref =
         (match paths.head? with
         | none => (st, .error (.fault .index))
         | some parent =>
@@ -126,7 +126,7 @@ theorem parseNodeFile_mono (fm : FileMap) : ∀ (fuel : Nat) (paths : List Bytes
                 match fm.lookup name with
                 | none => (openFile st name, .error .notExist)
                 | some refs =>
-                  match parseSourceWith (parseNodeFile fm m) paths (openFile st name) name refs with
+                  match parseSourceWith tbl (parseNodeFile tbl fm m) paths (openFile st name) name refs with
                   | (st', .ok ()) => ({ st' with trees := (name, ref.kind) :: st'.trees }, .ok ())
                   | (st', .error e) => (st', .error e)) := by
       intro m; rfl
@@ -156,35 +156,35 @@ theorem parseNodeFile_mono (fm : FileMap) : ∀ (fuel : Nat) (paths : List Bytes
             | some refs =>
               rw [hf] at hne
               simp only at hne ⊢
-              have hx : (parseSourceWith (parseNodeFile fm n) paths (openFile st name) name refs).2
+              have hx : (parseSourceWith tbl (parseNodeFile tbl fm n) paths (openFile st name) name refs).2
                   ≠ .error .outOfFuel := by
                 intro hc2
                 apply hne
-                rcases hp : parseSourceWith (parseNodeFile fm n) paths (openFile st name) name refs
+                rcases hp : parseSourceWith tbl (parseNodeFile tbl fm n) paths (openFile st name) name refs
                   with ⟨s1, r1⟩
                 rw [hp] at hc2
                 simp only at hc2
                 subst hc2
                 rfl
-              rw [parseSourceWith_congr (fun p => ih p) paths _ name refs hx]
+              rw [parseSourceWith_congr tbl (fun p => ih p) paths _ name refs hx]
 
 /-- with any amount of fuel beyond what `n` gave, the answer is the same, provided `n` was enough -/
-theorem parseNodeFile_mono_le (fm : FileMap) (n : Nat) : ∀ (k : Nat) (paths : List Bytes),
-    Extends (parseNodeFile fm n paths) (parseNodeFile fm (n + k) paths) := by
+theorem parseNodeFile_mono_le (tbl : SiteTable) (fm : FileMap) (n : Nat) : ∀ (k : Nat) (paths : List Bytes),
+    Extends (parseNodeFile tbl fm n paths) (parseNodeFile tbl fm (n + k) paths) := by
   intro k
   induction k with
   | zero => intro paths st r _; rfl
   | succ k ih =>
     intro paths st r hne
     have h1 := ih paths st r hne
-    have h2 : (parseNodeFile fm (n + k) paths st r).2 ≠ .error .outOfFuel := by rw [h1]; exact hne
-    have := parseNodeFile_mono fm (n + k) paths st r h2
+    have h2 : (parseNodeFile tbl fm (n + k) paths st r).2 ≠ .error .outOfFuel := by rw [h1]; exact hne
+    have := parseNodeFile_mono tbl fm (n + k) paths st r h2
     rw [← h1, ← this]
     rfl
 
-theorem parseTemplateFuel_mono (fm : FileMap) (n k : Nat) (root : Bytes)
-    (hne : (parseTemplateFuel fm n root).2 ≠ .error .outOfFuel) :
-    parseTemplateFuel fm (n + k) root = parseTemplateFuel fm n root := by
+theorem parseTemplateFuel_mono (tbl : SiteTable) (fm : FileMap) (n k : Nat) (root : Bytes)
+    (hne : (parseTemplateFuel tbl fm n root).2 ≠ .error .outOfFuel) :
+    parseTemplateFuel tbl fm (n + k) root = parseTemplateFuel tbl fm n root := by
   unfold parseTemplateFuel at hne ⊢
   split
   · rfl
@@ -195,6 +195,6 @@ theorem parseTemplateFuel_mono (fm : FileMap) (n k : Nat) (root : Bytes)
     | some refs =>
       rw [hf] at hne
       simp only at hne ⊢
-      exact parseSourceWith_congr (fun p => parseNodeFile_mono_le fm n k p) [] _ root refs hne
+      exact parseSourceWith_congr tbl (fun p => parseNodeFile_mono_le tbl fm n k p) [] _ root refs hne
 
 end ScriggoV.Paths
